@@ -2,12 +2,14 @@
 (* Implementation-shaped model of aiocoap's resource directory              *)
 (* (aiocoap/cli/rd.py: CommonRD._by_key / _by_path, initialize_endpoint,    *)
 (* Registration.update_params / delete / lifetime timer, DirectoryResource, *)
-(* RegistrationResource, the two lookup interfaces).  One action per        *)
-(* request handler, each with the stages in which the handler validates     *)
-(* and mutates; every action emits the request event it stands for followed *)
-(* by what an endpoint lookup and a resource lookup return in the new state *)
-(* (lookups are pure reads of _by_key), and the monitor summary `obs' of    *)
-(* ResourceDirectoryObs is folded over these events.                        *)
+(* SimpleRegistration, RegistrationResource, the two lookup interfaces).    *)
+(* One action per request handler, each with the stages in which the        *)
+(* handler validates and mutates; every action emits the request event it   *)
+(* stands for followed by what an endpoint lookup and a resource lookup     *)
+(* return in the new state (lookups are pure reads of _by_key), and the     *)
+(* monitor summary `obs' of ResourceDirectoryObs is folded over these       *)
+(* events.  Filtered / paged lookups are actions of their own (they change  *)
+(* nothing but the monitor summary).                                        *)
 (*                                                                          *)
 (* Hyp is a set of *order hypotheses*: with Hyp = {} every handler          *)
 (* validates before it mutates (the design the property asks for; TLC must  *)
@@ -15,14 +17,18 @@
 (* mutates where a reading of rd.py says it does; TLC's counterexamples of  *)
 (* that variant are only candidates: they are replayed on the real code and *)
 (* only a clause that is false on the recorded execution counts.            *)
-EXTENDS ResourceDirectoryObs, TLC
+EXTENDS ResourceDirectoryObs
 
 CONSTANTS Srcs,          \* requesting peers
           Eps, Ds,       \* endpoint names, sectors ("" = no sector)
-          RegProfiles,   \* set of [lt, base, x, links]
-          UpdProfiles,   \* set of [lt, base, x]
-          PutProfiles,   \* set of [lt, base, x, links]
-          RegVars, UpdVars, PutVars,   \* request forms (see *Stage below)
+          RegProfiles,   \* set of [lt, lx, base, x, links]
+          UpdProfiles,   \* set of [lt, lx, base, x]
+          PutProfiles,   \* set of [lt, lx, base, x, links]
+          SRegProfiles,  \* set of [lt, lx, x, links]   (simple registration has no base)
+          RegVars, UpdVars, PutVars, SRegVars,   \* request forms (see *Stage below)
+          Filters,       \* sets of search criteria (sequences of [k, v, w, loc]) for filtered lookups
+          Counts,        \* page sizes of filtered lookups (0: not paged)
+          MaxLk,         \* filtered lookups per behaviour while the history is kept
           Adv,           \* sizes of clock steps
           MaxTime, MaxOps,
           Hyp,
@@ -30,29 +36,41 @@ CONSTANTS Srcs,          \* requesting peers
 
 VARIABLES now,
           byKey,     \* CommonRD._by_key : <<ep, d>> -> loc
-          byPath,    \* CommonRD._by_path: loc -> Registration [ep, d, lt, base, expl, x, links, due]
+          byPath,    \* CommonRD._by_path: loc -> Registration [loc, ep, d, lq, lr, base, expl, xs, links, due]
           budget,    \* requests the environment may still send
           obs,       \* monitor summary (ResourceDirectoryObs)
           hist       \* request history (for replay; outside the VIEW)
 
 vars == <<now, byKey, byPath, budget, obs, hist>>
 
-E0 == [k |-> "", t |-> 0, src |-> 0, ep |-> "", d |-> "", loc |-> 0, lt |-> 0, base |-> 0, x |-> 0,
-       links |-> 0, var |-> "", vg |-> "", cls |-> 0, n |-> 0, eps |-> {}, res |-> {}]
+E0 == [k |-> "", t |-> 0, src |-> 0, ep |-> "", d |-> "", loc |-> 0, lt |-> 0, lx |-> 0, base |-> 0, x |-> 0,
+       links |-> 0, var |-> "", vg |-> "", cls |-> 0, n |-> 0, eps |-> << >>, res |-> << >>,
+       iface |-> "", crit |-> << >>, cnt |-> 0, first |-> << >>, pages |-> << >>, pcls |-> 0]
 
 (* -- which stage of its handler a request form fails in -------------------- *)
 (* DirectoryResource.render_post: body (content format, link-format parse), *)
-(* then initialize_endpoint: ep / d / proxy ("early"), replacement of the   *)
-(* old registration, then Registration.__init__ -> update_params ("late":   *)
-(* reserved keys, lt, base); "crash": lt without a value (int(None))        *)
+(* then initialize_endpoint: ep / d / proxy ("early"), then                 *)
+(* Registration.__init__ -> update_params ("late": reserved keys, lt, base) *)
+(* and only then the replacement of the old registration; "crash": lt       *)
+(* without a value                                                          *)
 Rsvd == {"rsvd_rt", "rsvd_page", "rsvd_count", "rsvd_href", "rsvd_anchor"}   \* keys update_params refuses
 RegStage(v) == CASE v = "ok" -> "ok"
                  [] v \in {"nocf", "badcf", "badlf"} -> "body"
                  [] v \in {"noep", "ep2", "d2", "proxy"} -> "early"
                  [] v \in {"ltnan", "lt2", "base2"} \cup Rsvd -> "late"
                  [] v = "ltnoval" -> "crash"
-(* RegistrationResource.render_post: update_params ("pre": ep/d, reserved   *)
-(* keys, lt, base), mutation, then the body check ("post")                  *)
+(* SimpleRegistration.render_post: base is refused ("sreq"); process_request *)
+(* fetches /.well-known/core from the registrant ("fetch": the registrant   *)
+(* answers 4.04, or 2.05 without the link-format content format, or with a  *)
+(* body that does not parse), then initialize_endpoint as above             *)
+SRegStage(v) == CASE v \in {"ok", "okwkc"} -> "ok"
+                  [] v = "sbase" -> "sreq"
+                  [] v \in {"fetch404", "fetchcf", "fetchbadlf"} -> "fetch"
+                  [] v \in {"noep", "ep2", "d2", "proxy"} -> "early"
+                  [] v \in {"ltnan", "lt2"} \cup Rsvd -> "late"
+                  [] v = "ltnoval" -> "crash"
+(* RegistrationResource.render_post: the body check ("post"), then          *)
+(* update_params ("pre": ep/d, reserved keys, lt, base), then the mutation  *)
 UpdStage(v) == CASE v = "ok" -> "ok"
                  [] v \in {"ep", "d", "ltnan", "lt2", "base2"} \cup Rsvd -> "pre"
                  [] v = "ltnoval" -> "crash"
@@ -64,32 +82,60 @@ PutStage(v) == CASE v = "ok" -> "ok"
                  [] v = "ltnoval" -> "crash"
 
 Group(stage) == CASE stage = "ok" -> "ok" [] stage = "body" -> "bad-body" [] stage = "early" -> "bad-key"
-                  [] stage \in {"late", "pre"} -> "bad-param" [] stage = "crash" -> "lt-novalue"
-                  [] stage = "post" -> "body"
+                  [] stage \in {"late", "pre", "sreq"} -> "bad-param" [] stage = "crash" -> "lt-novalue"
+                  [] stage = "post" -> "body" [] stage = "fetch" -> "fetch-failed"
 ClsOf(stage) == IF stage = "ok" THEN 2 ELSE IF stage = "crash" THEN 5 ELSE 4
 
 (* -- what the lookups return (get_endpoints = _by_key.values()) ----------- *)
 Listed(bk) == {bk[k] : k \in DOMAIN bk}
-ImplEps(bk, bp) == {[loc |-> l, ep |-> bp[l].ep, d |-> bp[l].d, base |-> bp[l].base, x |-> bp[l].x] : l \in Listed(bk)}
-ImplRes(bk, bp) == UNION {ResRecs(<<bp[l].ep, bp[l].d>>, bp[l]) : l \in Listed(bk)}
-LkEp(bk, bp, t)  == [E0 EXCEPT !.k = "lkep", !.t = t, !.cls = 2, !.eps = ImplEps(bk, bp),
-                               !.n = Cardinality(ImplEps(bk, bp))]
-LkRes(bk, bp, t) == [E0 EXCEPT !.k = "lkres", !.t = t, !.cls = 2, !.res = ImplRes(bk, bp),
-                               !.n = Cardinality(ImplRes(bk, bp))]
+RECURSIVE Ascending(_)
+Ascending(S) == IF S = {} THEN << >>
+                ELSE LET m == CHOOSE x \in S : \A y \in S : x <= y IN <<m>> \o Ascending(S \ {m})
+XKeyOrder == <<"et", "foo", "if">>
+XsSeq(xs) == LET ks == SelectSeq(XKeyOrder, LAMBDA k : k \in DOMAIN xs) IN [i \in DOMAIN ks |-> <<ks[i], xs[ks[i]]>>]
+ImplEpItem(r) == [loc |-> r.loc, ep |-> r.ep, d |-> r.d, base |-> BaseUri(r.base), xs |-> XsSeq(r.xs)]
+\* get_based_links + "strip needless anchors": the anchor is shown unless it is the root of the target
+ImplResItem(r, i) == LET it == ResTab[r.base][r.links][i]
+                     IN [href |-> it.href, anchor |-> IF it.anc = it.imp THEN "" ELSE it.anc,
+                         attrs |-> SelectSeq(LinksOf(r.links)[i].attrs, LAMBDA a : a[1] # "anchor")]
+\* the registrations in the order of their locations, as <<loc, link index>>
+RECURSIVE LinkIdx(_, _)
+LinkIdx(bp, ls) == IF ls = << >> THEN << >>
+                   ELSE [i \in DOMAIN LinksOf(bp[Head(ls)].links) |-> <<Head(ls), i>>] \o LinkIdx(bp, Tail(ls))
+ImplEpSeq(bk, bp) == LET ls == Ascending(Listed(bk)) IN [i \in DOMAIN ls |-> ImplEpItem(bp[ls[i]])]
+ImplResSeq(bk, bp) == LET ix == LinkIdx(bp, Ascending(Listed(bk))) IN [i \in DOMAIN ix |-> ImplResItem(bp[ix[i][1]], ix[i][2])]
+LkEp(bk, bp, t)  == [E0 EXCEPT !.k = "lkep", !.t = t, !.cls = 2, !.eps = ImplEpSeq(bk, bp), !.n = Len(ImplEpSeq(bk, bp))]
+LkRes(bk, bp, t) == [E0 EXCEPT !.k = "lkres", !.t = t, !.cls = 2, !.res = ImplResSeq(bk, bp), !.n = Len(ImplResSeq(bk, bp))]
 
 LowestFree(bp) == CHOOSE i \in 1..(Cardinality(DOMAIN bp) + 1) :
                      i \notin DOMAIN bp /\ \A j \in 1..(i - 1) : j \in DOMAIN bp
 
+(* -- lifetime timers (Registration.delete run by the timeout task): the     *)
+(*    registrations whose deadline is reached at time t disappear from both  *)
+(*    indexes.  due = the first quantum at which the registration is gone    *)
+Due(bp, t) == {l \in DOMAIN bp : bp[l].due <= t}
+ExpireKeys(bk, bp, t) == Drop(bk, {<<bp[l].ep, bp[l].d>> : l \in Due(bp, t)})
+ExpirePaths(bp, t) == Drop(bp, Due(bp, t))
+DueAt(t, lq, lr) == t + lq + Grace + (IF lr > 0 THEN 1 ELSE 0)
+
+\* a timer whose delay is not positive runs at once: the handler's state is seen after it
 Commit(bk, bp, t, evs, h) ==
-  /\ byKey' = bk /\ byPath' = bp
-  /\ LET es == evs \o <<LkEp(bk, bp, t), LkRes(bk, bp, t)>>
-     IN obs' = ObsFold(obs, es)
-  /\ hist' = IF KeepHist THEN hist \o h ELSE hist
+  LET bk2 == ExpireKeys(bk, bp, t)
+      bp2 == ExpirePaths(bp, t)
+  IN /\ byKey' = bk2 /\ byPath' = bp2
+     /\ obs' = ObsFold(obs, evs \o <<LkEp(bk2, bp2, t), LkRes(bk2, bp2, t)>>)
+     /\ hist' = IF KeepHist THEN hist \o h ELSE hist
 
 Init == /\ now = 0 /\ byKey = << >> /\ byPath = << >> /\ budget = MaxOps
         /\ obs = ObsInit /\ hist = << >>
 
 Request == obs.bad = {} /\ budget > 0
+
+NewReg(src, ep, d, p, loc, base) ==
+  LET lf == EffLife(p)
+  IN [loc |-> loc, ep |-> ep, d |-> d, lq |-> lf.q, lr |-> lf.r,
+      base |-> IF base # 0 THEN base ELSE SrcBase(src), expl |-> base # 0,
+      xs |-> XMap(p.x), links |-> p.links, due |-> DueAt(now, lf.q, lf.r)]
 
 (* -- POST to the directory resource ---------------------------------------- *)
 Register(src, ep, d, p, var) ==
@@ -100,30 +146,57 @@ Register(src, ep, d, p, var) ==
          bkDel  == IF hasOld THEN Drop(byKey, {key}) ELSE byKey
          bpDel  == IF hasOld THEN Drop(byPath, {byKey[key]}) ELSE byPath
          loc    == IF hasOld THEN byKey[key] ELSE LowestFree(byPath)
-         reg    == [ep |-> ep, d |-> d, lt |-> EffLt(p.lt),
-                    base |-> IF p.base # 0 THEN p.base ELSE SrcBase(src), expl |-> p.base # 0,
-                    x |-> p.x, links |-> p.links, due |-> now + EffLt(p.lt) + Grace]
          ev     == [E0 EXCEPT !.k = "reg", !.t = now, !.src = src,
                               !.ep = IF var = "noep" THEN "" ELSE ep, !.d = d,
-                              !.lt = p.lt, !.base = p.base, !.x = p.x, !.links = p.links,
+                              !.lt = p.lt, !.lx = p.lx, !.base = p.base, !.x = p.x, !.links = p.links,
                               !.var = var, !.vg = Group(st), !.cls = ClsOf(st),
                               !.loc = IF st = "ok" THEN loc ELSE 0]
      IN IF st = "ok"
-          THEN Commit(Put(bkDel, key, loc), Put(bpDel, loc, reg), now, <<ev>>, <<ev>>)
+          THEN Commit(Put(bkDel, key, loc), Put(bpDel, loc, NewReg(src, ep, d, p, loc, p.base)), now, <<ev>>, <<ev>>)
         ELSE IF st \in {"late", "crash"} /\ "RegDeleteBeforeValidate" \in Hyp
           THEN Commit(bkDel, bpDel, now, <<ev>>, <<ev>>)      \* oldreg.delete() ran, Registration() raised
         ELSE Commit(byKey, byPath, now, <<ev>>, <<ev>>)
   /\ budget' = budget - 1
   /\ UNCHANGED now
 
+(* -- simple registration: POST to /.well-known/rd --------------------------- *)
+(* the answer carries no location: the event shows loc = 0, the history     *)
+(* keeps the location for later requests aimed at this registration         *)
+SimpleRegister(src, ep, d, p, var) ==
+  /\ Request
+  /\ LET st     == SRegStage(var)
+         key    == <<ep, d>>
+         hasOld == key \in DOMAIN byKey
+         bkDel  == IF hasOld THEN Drop(byKey, {key}) ELSE byKey
+         bpDel  == IF hasOld THEN Drop(byPath, {byKey[key]}) ELSE byPath
+         loc    == IF hasOld THEN byKey[key] ELSE LowestFree(byPath)
+         ev     == [E0 EXCEPT !.k = "sreg", !.t = now, !.src = src,
+                              !.ep = IF var = "noep" THEN "" ELSE ep, !.d = d,
+                              !.lt = p.lt, !.lx = p.lx, !.x = p.x, !.links = p.links,
+                              !.var = var, !.vg = Group(st), !.cls = ClsOf(st)]
+         hv     == [ev EXCEPT !.loc = IF st = "ok" THEN loc ELSE 0]
+         \* initialize_endpoint before the fetch: a registration without links exists when the fetch fails
+         early  == NewReg(src, ep, d, [p EXCEPT !.links = 0], loc, 0)
+     IN IF st = "ok"
+          THEN Commit(Put(bkDel, key, loc), Put(bpDel, loc, NewReg(src, ep, d, p, loc, 0)), now, <<ev>>, <<hv>>)
+        ELSE IF st = "fetch" /\ "SimpleRegBeforeFetch" \in Hyp
+          THEN Commit(Put(bkDel, key, loc), Put(bpDel, loc, early), now, <<ev>>, <<hv>>)
+        ELSE IF st \in {"late", "crash"} /\ "RegDeleteBeforeValidate" \in Hyp
+          THEN Commit(bkDel, bpDel, now, <<ev>>, <<hv>>)
+        ELSE Commit(byKey, byPath, now, <<ev>>, <<hv>>)
+  /\ budget' = budget - 1
+  /\ UNCHANGED now
+
 (* Registration.update_params (not initial) + refresh_timeout *)
 Updated(r, src, u) ==
-  LET lt2 == IF u.lt # 0 THEN u.lt ELSE r.lt
-  IN [r EXCEPT !.lt   = lt2,
+  LET lf  == EffLife(u)
+      lq2 == IF GivesLt(u) THEN lf.q ELSE r.lq
+      lr2 == IF GivesLt(u) THEN lf.r ELSE r.lr
+  IN [r EXCEPT !.lq   = lq2, !.lr = lr2,
                !.base = IF u.base # 0 THEN u.base ELSE IF r.expl THEN @ ELSE SrcBase(src),
                !.expl = r.expl \/ u.base # 0,
-               !.x    = IF u.x # 0 THEN u.x ELSE @,
-               !.due  = now + lt2 + Grace]
+               !.xs   = MergeX(@, u.x),
+               !.due  = DueAt(now, lq2, lr2)]
 
 (* -- POST to a registration resource ---------------------------------------- *)
 UpdatePost(src, loc, u, var) ==
@@ -131,7 +204,7 @@ UpdatePost(src, loc, u, var) ==
   /\ LET st    == UpdStage(var)
          found == loc \in DOMAIN byPath
          ev    == [E0 EXCEPT !.k = "upd", !.t = now, !.src = src, !.loc = loc,
-                             !.lt = u.lt, !.base = u.base, !.x = u.x, !.var = var, !.vg = Group(st),
+                             !.lt = u.lt, !.lx = u.lx, !.base = u.base, !.x = u.x, !.var = var, !.vg = Group(st),
                              !.cls = IF found THEN ClsOf(st) ELSE 4]
          bp2   == [byPath EXCEPT ![loc] = Updated(@, src, u)]
      IN IF found /\ (st = "ok" \/ (st = "post" /\ "UpdMutateBeforeBodyCheck" \in Hyp))
@@ -146,7 +219,7 @@ UpdatePut(src, loc, u, var) ==
   /\ LET st    == PutStage(var)
          found == loc \in DOMAIN byPath
          ev    == [E0 EXCEPT !.k = "put", !.t = now, !.src = src, !.loc = loc,
-                             !.lt = u.lt, !.base = u.base, !.x = u.x, !.links = u.links,
+                             !.lt = u.lt, !.lx = u.lx, !.base = u.base, !.x = u.x, !.links = u.links,
                              !.var = var, !.vg = Group(st),
                              !.cls = IF found THEN ClsOf(st) ELSE 4]
          bp2   == [byPath EXCEPT ![loc] = [Updated(@, src, u) EXCEPT !.links = u.links]]
@@ -168,34 +241,74 @@ Delete(src, loc) ==
   /\ budget' = budget - 1
   /\ UNCHANGED now
 
-(* -- lifetime timers (Registration.delete run by the timeout task): the     *)
-(*    registrations whose deadline is reached at time t disappear from both  *)
-(*    indexes                                                                *)
-Due(bp, t) == {l \in DOMAIN bp : bp[l].due <= t}
-ExpireKeys(bk, bp, t) == Drop(bk, {<<bp[l].ep, bp[l].d>> : l \in Due(bp, t)})
-ExpirePaths(bp, t) == Drop(bp, Due(bp, t))
+(* -- filtered / paged lookup (EndpointLookupInterface / ResourceLookup-      *)
+(*    Interface.render_get + _paginate): the criteria are applied one after   *)
+(*    the other to the registrations (their parameters or any of their        *)
+(*    links) resp. to the links (their attributes or the parameters of their  *)
+(*    registration), then the result is sliced                                *)
+NLk(h) == Cardinality({i \in DOMAIN h : h[i].k = "flk"})
+Lookup(iface, crit, cnt) ==
+  /\ obs.bad = {}
+  /\ KeepHist => NLk(hist) < MaxLk
+  /\ LET io  == [book |-> [q \in DOMAIN byKey |-> byPath[byKey[q]]]]
+         ls  == Ascending(Listed(byKey))
+         key(l) == <<byPath[l].ep, byPath[l].d>>
+         ix  == LinkIdx(byPath, ls)
+         sel == IF iface = "ep"
+                  THEN LET ks == SelectSeq(ls, LAMBDA l : EpSel(io, key(l), crit, TRUE))
+                       IN [i \in DOMAIN ks |-> ImplEpItem(byPath[ks[i]])]
+                  ELSE LET ks == SelectSeq(ix, LAMBDA p : ResSel(io, <<key(p[1]), p[2]>>, crit, TRUE))
+                       IN [i \in DOMAIN ks |-> ImplResItem(byPath[ks[i][1]], ks[i][2])]
+         n   == Len(sel)
+         rq  == [E0 EXCEPT !.k = "flk", !.t = now, !.iface = iface, !.crit = crit, !.cnt = cnt]
+         ev  == [rq EXCEPT !.cls = 2, !.n = n,
+                           !.eps = IF iface = "ep" THEN sel ELSE << >>,
+                           !.res = IF iface = "ep" THEN << >> ELSE sel,
+                           !.first = IF cnt = 0 THEN << >> ELSE SubSeq(sel, 1, Min2(cnt, n)),
+                           !.pages = IF cnt = 0 THEN << >>
+                                     ELSE [i \in 1..(n \div cnt + 1) |-> SubSeq(sel, (i - 1) * cnt + 1, Min2(i * cnt, n))],
+                           !.pcls = IF cnt = 0 THEN 0 ELSE 2]
+     IN /\ obs' = ObsEvent(obs, ev)
+        /\ hist' = IF KeepHist THEN Append(hist, rq) ELSE hist
+  /\ UNCHANGED <<now, byKey, byPath, budget>>
 
 (* -- the clock.  It never passes a pending deadline; the timers that are due *)
 (*    at the new instant run before anything else happens at that instant    *)
-(*    (Expire), so the lookups of that instant already see their effect      *)
+(*    (Commit), so the lookups of that instant already see their effect      *)
 CanTick(n) == /\ byPath # << >>
               /\ now + n <= MaxTime
               /\ \A l \in DOMAIN byPath : byPath[l].due >= now + n
 Tick(n) ==
   /\ obs.bad = {} /\ CanTick(n)
   /\ now' = now + n
-  /\ Commit(ExpireKeys(byKey, byPath, now + n), ExpirePaths(byPath, now + n), now + n, << >>,
-            <<[E0 EXCEPT !.k = "adv", !.t = now + n, !.n = n]>>)
+  /\ Commit(byKey, byPath, now + n, << >>, <<[E0 EXCEPT !.k = "adv", !.t = now + n, !.n = n]>>)
+  /\ UNCHANGED budget
+
+(* deadlines beyond the horizon of the ordinary steps (the default lifetime  *)
+(* of 25 hours, lifetimes of days, the largest lifetime): the clock jumps to *)
+(* the quantum before the next deadline (back = 1) or onto it (back = 0)     *)
+NextDue == CHOOSE t \in {byPath[l].due : l \in DOMAIN byPath} : \A l \in DOMAIN byPath : t <= byPath[l].due
+CanJump(back) == /\ byPath # << >>
+                 /\ NextDue - back > now
+                 /\ NextDue - back > MaxTime
+Jump(back) ==
+  /\ obs.bad = {} /\ CanJump(back)
+  /\ now' = NextDue - back
+  /\ Commit(byKey, byPath, NextDue - back, << >>,
+            <<[E0 EXCEPT !.k = "adv", !.t = NextDue - back, !.n = NextDue - back - now]>>)
   /\ UNCHANGED budget
 
 (* existing registration resources plus one path that does not exist *)
 Targets == (DOMAIN byPath) \cup {LowestFree(byPath)}
 
 Next == \/ \E src \in Srcs, ep \in Eps, d \in Ds, p \in RegProfiles, var \in RegVars : Register(src, ep, d, p, var)
+        \/ \E src \in Srcs, ep \in Eps, d \in Ds, p \in SRegProfiles, var \in SRegVars : SimpleRegister(src, ep, d, p, var)
         \/ \E src \in Srcs, loc \in Targets, u \in UpdProfiles, var \in UpdVars : UpdatePost(src, loc, u, var)
         \/ \E src \in Srcs, loc \in Targets, u \in PutProfiles, var \in PutVars : UpdatePut(src, loc, u, var)
         \/ \E src \in Srcs, loc \in Targets : Delete(src, loc)
+        \/ \E iface \in {"ep", "res"}, crit \in Filters, cnt \in Counts : Lookup(iface, crit, cnt)
         \/ \E n \in Adv : Tick(n)
+        \/ \E back \in {0, 1} : Jump(back)
 
 Spec == Init /\ [][Next]_vars
 
@@ -215,6 +328,8 @@ PickLoc == IF DOMAIN byPath # {} /\ Chance(88) THEN RandomElement(DOMAIN byPath)
 SimNext ==
   \/ \E w \in 1..3 : \E src \in {RandomElement(Srcs)}, key \in {PickKey}, p \in {RandomElement(RegProfiles)},
                         var \in {PickVar(RegVars)} : Register(src, key[1], key[2], p, var)
+  \/ \E w \in 1..1 : \E src \in {RandomElement(Srcs)}, key \in {PickKey}, p \in {RandomElement(SRegProfiles)},
+                        var \in {PickVar(SRegVars)} : SimpleRegister(src, key[1], key[2], p, var)
   \/ \E w \in 1..3 : (byPath # << >> \/ Chance(5)) /\
                       \E src \in {RandomElement(Srcs)}, loc \in {PickLoc}, u \in {RandomElement(UpdProfiles)},
                         var \in {PickVar(UpdVars)} : UpdatePost(src, loc, u, var)
@@ -223,8 +338,12 @@ SimNext ==
                         var \in {PickVar(PutVars)} : UpdatePut(src, loc, u, var)
   \/ \E w \in 1..1 : (byPath # << >> \/ Chance(5)) /\
                       \E src \in {RandomElement(Srcs)}, loc \in {PickLoc} : Delete(src, loc)
+  \/ \E w \in 1..2 : byPath # << >> /\ budget > 0 /\
+                      \E iface \in {RandomElement({"ep", "res"})}, crit \in {RandomElement(Filters)},
+                        cnt \in {RandomElement(Counts)} : Lookup(iface, crit, cnt)
   \/ \E w \in 1..4 : \E n \in {RandomElement(Adv)} : Tick(n)
   \/ \E n \in Adv : budget = 0 /\ Tick(n)      \* let the remaining lifetimes run out
+  \/ \E back \in {0, 1} : (budget = 0 \/ Chance(10)) /\ Jump(back)
 
 SimSpec == Init /\ [][SimNext]_vars
 
@@ -235,23 +354,26 @@ Inv_OnePerKey                 == C20_OnePerKey(obs)
 Inv_ReRegisterKeepsLocation   == C20_ReRegisterKeepsLocation(obs)
 Inv_LocationsDistinct         == C20_LocationsDistinct(obs)
 Inv_FailedWriteChangesNothing == C20_FailedWriteChangesNothing(obs)
+Inv_FilteredLookupExact       == C20_FilteredLookupExact(obs)
+Inv_PagingPartitions          == C20_PagingPartitions(obs)
 
 \* the two indexes describe the same registrations
 IndexesAgree == /\ \A k \in DOMAIN byKey : byKey[k] \in DOMAIN byPath
                                            /\ <<byPath[byKey[k]].ep, byPath[byKey[k]].d>> = k
+                                           /\ byPath[byKey[k]].loc = byKey[k]
                 /\ \A l \in DOMAIN byPath : <<byPath[l].ep, byPath[l].d>> \in DOMAIN byKey
                                             /\ byKey[<<byPath[l].ep, byPath[l].d>>] = l
 \* the bookkeeping of successful writes and the implementation state tell the same story
 BookAgrees == obs.bad = {} =>
                  /\ LiveKeys(obs, now) = DOMAIN byKey
                  /\ \A q \in DOMAIN byKey : /\ obs.book[q].loc = byKey[q]
-                                              /\ obs.book[q].w + obs.book[q].lt + Grace = byPath[byKey[q]].due
+                                              /\ DueAt(obs.book[q].w, obs.book[q].lq, obs.book[q].lr) = byPath[byKey[q]].due
 
 \* reporter used with an order hypothesis: a terminal state in which a clause is false
 ReportBad == obs.bad # {} => PrintT(<<"BAD", obs.bad, obs.blame, hist>>)
 
 \* reporter used in simulation: the history of a finished behaviour
-Done == budget = 0 /\ \A n \in Adv : ~CanTick(n)
+Done == budget = 0 /\ (\A n \in Adv : ~CanTick(n)) /\ (\A back \in {0, 1} : ~CanJump(back))
 ReportHist == Done => PrintT(<<"HIST", hist>>)
 
 View == <<now, byKey, byPath, budget, obs>>
